@@ -239,14 +239,14 @@ scpi_bool_t vh_input(vh_ctx_t * v, const void * data, size_t len) {
     return r;
 }
 
-/* One complete message (terminator included or not) delivered in a way chosen by `how`: 0 as it is; 1 its terminator removed and a zero-length
+/* One complete message (its last `termlen` bytes are the terminator) delivered in a way chosen by `how`: 0 as it is; 1 its terminator removed and a zero-length
  * (flush) call instead; 2 like 1, but the message travels in ONE input call behind an empty line - the library executes the empty line, moves
  * the unterminated rest to the front of its buffer and only the flush call ends it: what lies behind the last byte of the message is then
  * whatever the buffer held, not a terminator. An empty line and a flush produce no event of their own, so all three must behave alike. */
-scpi_bool_t vh_deliver(vh_ctx_t * v, const void * data, size_t len, int how) {
+scpi_bool_t vh_deliver(vh_ctx_t * v, const void * data, size_t len, size_t termlen, int how) {
     const char * d = (const char *) data; scpi_bool_t r;
     if (how == 0 || len == 0) return vh_input(v, data, len);
-    while (len && (d[len - 1] == '\n' || d[len - 1] == '\r')) len--;
+    len -= termlen < len ? termlen : len; /* the caller says how long the terminator is: data may itself end in CR or LF (a block, a string) */
     if (how == 1 || len + 3 > v->ctx->buffer.length) { if (len) vh_input(v, d, len); return vh_input(v, NULL, 0); }
     {
         char * t = (char *) malloc(len + 2); size_t k = 0;
